@@ -9,7 +9,8 @@ import shutil
 
 from vlib import core
 
-THEOREMS = ["C20_iff", "C20_iff_namespaces", "C20_iff_project", "C20_locales", "C20_keys", "C20_spec", "C20_spec_keys"]
+THEOREMS = ["C20_iff", "C20_iff_namespaces", "C20_iff_project", "C20_var_formatters_union", "C20_locales", "C20_keys", "C20_spec",
+            "C20_spec_keys"]
 PROPS = "theories/Props/C20.v"
 REGISTRY = {
     "level": "proof",
@@ -379,7 +380,42 @@ def gen_project(rng):
         return c
 
     nondefault = p.locales[1:]
+    # ONE variable carrying several formatters within ONE key - across locales, within one string, in the forms of one
+    # plural, at any sub-key depth - while the families involved are used nowhere else in the project
+    multi = {}
+    if rng.random() < 0.45:
+        fams = [o for o in OPTIONS if o != "Plurals"]
+        oa = rng.choice(fams)
+        ob = rng.choice(fams + [None])                  # None: the second occurrence has no formatter
+        fa = rng.choice(FMT_OF_OPTION[oa])
+        fb = rng.choice([f for f in FMT_OF_OPTION[ob] if f != fa] or FMT_OF_OPTION[ob]) if ob else None
+        c = pick_leaf((lambda ns, path: len(path) >= 2) if rng.random() < 0.5 else (lambda ns, path: True)) or pick_leaf()
+        if c is not None:
+            ns, path, leaf = c
+            var = rng.choice(["amount", "when", "things"])
+            va = ("var", var, fa, rng.choice(FMT_ARGS[fa]))
+            vb = ("var", var, fb, rng.choice(FMT_ARGS[fb]) if fb else "")
+            if rng.random() < 0.5:
+                va, vb = vb, va                         # which one is met first (default locale first, then left to right)
+            how = rng.choice(["one_string", "one_string", "across_locales", "plural_forms"])
+            if how == "across_locales" and not nondefault:
+                how = "one_string"
+            if how == "one_string":
+                parts = neutral_parts(rng) + [va, ("txt", " / ")] + ([("var", var, None, "")] if rng.random() < 0.3 else []) + [vb]
+                for loc in ([rng.choice(p.locales)] if rng.random() < 0.6 else p.locales):
+                    leaf[loc] = ("parts", [("comp", "b", parts)] if rng.random() < 0.2 else parts)
+            elif how == "across_locales":
+                a, b = rng.sample(p.locales, 2)
+                leaf[a] = ("parts", neutral_parts(rng) + [va])
+                leaf[b] = ("parts", [vb] + neutral_parts(rng))
+            else:
+                leaf[rng.choice(p.locales)] = ("plural", rng.random() < 0.3, {"one": [va, ("txt", " one")], "other": neutral_parts(rng) + [vb]})
+            for o in {oa, ob} - {None}:
+                multi[o] = "multi_fmt:%s(%s+%s)(depth %d)" % (how, fa, fb, len(path))
     for opt in OPTIONS:
+        if opt in multi:
+            plan[opt] = multi[opt]                      # used there and nowhere else
+            continue
         pl = rng.choice(PLACEMENTS)
         if pl == "nondefault_only" and not nondefault:
             pl = "default_only"
